@@ -4,6 +4,7 @@ mod fw;
 mod genm;
 mod props;
 mod rng;
+mod stdprobe;
 mod vclock;
 
 use rng::SplitMix64;
@@ -120,6 +121,14 @@ fn main() {
     let args: Vec<String> = std::env::args().collect();
     match args.get(1).map(|s| s.as_str()) {
         Some("fw") => cmd_fw(&args[2..]),
+        Some("c01std") => {
+            let a = &args[2..];
+            stdprobe::run(
+                arg(a, "--seed").map(|s| s.parse().unwrap()).unwrap_or(1),
+                arg(a, "--n").map(|s| s.parse().unwrap()).unwrap_or(100),
+                &arg(a, "--out").expect("--out"),
+            )
+        }
         Some("binom") => {
             use maybenot::dist::{Dist, DistType};
             for trials in 0..=20u64 {
